@@ -82,6 +82,10 @@ EXC = {
     "runtime0": (RuntimeError, ()),
     "zerodiv": (ZeroDivisionError, ("z",)),
     "custom2": (CustomError, ("a", 2)),
+    # exception types the machinery itself gives a meaning to (future.result timeouts, iterator protocol, OS errors)
+    "timeout": (TimeoutError, ("t",)),
+    "stopiter": (StopIteration, ("s",)),
+    "oserror": (OSError, (5, "io")),
 }
 
 
@@ -93,9 +97,14 @@ def _alarm(signum, frame):
     raise _Timeout
 
 
-def with_watchdog(fn, seconds=60):
+_HANGS = [0]
+
+
+def with_watchdog(fn, seconds=20):
     """Bounded wait for the 'returns instead of hanging' clause.  A first timeout is retried once with a three
     times longer budget (a loaded machine must not look like a hang); only a repeated timeout propagates."""
+    if _HANGS[0] >= 2:
+        seconds = min(seconds, 5)  # this process has seen real hangs: do not spend two full periods on every further one
     for attempt, budget in enumerate((seconds, 3 * seconds)):
         old = signal.signal(signal.SIGALRM, _alarm)
         signal.setitimer(signal.ITIMER_REAL, budget)
@@ -103,6 +112,7 @@ def with_watchdog(fn, seconds=60):
             return fn()
         except _Timeout:
             if attempt == 1:
+                _HANGS[0] += 1
                 raise
         finally:
             signal.setitimer(signal.ITIMER_REAL, 0)
@@ -194,6 +204,13 @@ def _body_dag(data) -> Outcome:
         if fname == fail_fn:
             raise _make_exc(exc_key)
 
+    if (pick >> 9) % 3 == 0:
+        # the failing function receives its evaluated resources through `resources_variable`
+        prog = copy.deepcopy(prog)
+        for fn_ in prog["funcs"]:
+            if fn_["name"] == fail_fn:
+                fn_["resvar"] = "res_"
+        out.labels.append("failing-function-has-resources_variable")
     try:
         p = build_pipeline(prog, log, fail=fail)
     except Exception:
@@ -261,8 +278,15 @@ def body_map(data) -> Outcome:
     out = Outcome()
     prog, cfg, pick, exc_key = data["prog"], data["cfg"], data["pick"], data["exc"]
     mode, entry = cfg["mode"], cfg["entry"]
+    if exc_key == "stopiter" and entry == "async" and not data.get("allow_stopiter_async"):
+        # recorded finding (C13-stopiteration-hangs-map_async): excluded by construction, every such case would cost
+        # two watchdog periods
+        entry = "map"
+        excluded = ["excluded:stopiter-under-map_async"]
+    else:
+        excluded = []
     tag = mode if entry == "map" else f"{mode}-async"
-    out.labels = [f"mode:{tag}", f"exc:{exc_key}"] + [l for l in mp.labels(prog) if l.startswith("storage:")]
+    out.labels = [f"mode:{tag}", f"exc:{exc_key}"] + excluded + [l for l in mp.labels(prog) if l.startswith("storage:")]
     ref, calls, deps = _call_deps(prog)
     cls, args = EXC[exc_key]
     funcs = {fn["name"]: fn for fn in prog["funcs"]}
@@ -354,7 +378,7 @@ def body_map(data) -> Outcome:
 
         raised = None
         try:
-            r = with_watchdog(go)
+            r = with_watchdog(go, data.get("watchdog", 20))
         except _Timeout:
             out.fail(f"{tag}-hang", f"failing call {fbase}")
             return out
@@ -523,4 +547,19 @@ def campaigns(tier):
     ]
 
 
-PREDICATES = {}
+def _pred_stopiter_async(case, failure) -> bool:
+    """C13 finding: a user function raising StopIteration under map_async: asyncio refuses to set StopIteration on
+    a future ("interacts badly with generators"), the wrapped task never completes and `await task` hangs."""
+    d = case["data"]
+    return d.get("exc") == "stopiter" and d.get("cfg", {}).get("entry") == "async" and failure.bucket.endswith("-hang")
+
+
+def _pred_timeout_async(case, failure) -> bool:
+    """C13 finding: a user function raising TimeoutError under map_async: asyncio converts a TimeoutError coming out
+    of a concurrent future into a *new* TimeoutError(*args) (futures._convert_future_exc), which drops the notes
+    pipefunc attached; type and message survive, the annotation does not."""
+    d = case["data"]
+    return d.get("exc") == "timeout" and d.get("cfg", {}).get("entry") == "async" and "note" in failure.bucket
+
+
+PREDICATES = {"stopiter_async": _pred_stopiter_async, "timeout_async": _pred_timeout_async}
